@@ -5,7 +5,7 @@
 (* writes (whole / partial / foreign / failing), reloads, deletions, quits. *)
 EXTENDS Bufs
 CONSTANTS NB, MaxSteps, Paths
-VARIABLES st, steps
+VARIABLES st, steps, trail     \* trail: ghost, the commands so far (not in the VIEW)
 
 Cmds(s) ==
     LET n == Len(Cur(s).lb.lines) IN
@@ -14,20 +14,21 @@ Cmds(s) ==
         p \in Paths \cup {""}, f \in BOOLEAN, ft \in {"", "open", "io"}} \cup
     {[k |-> "w", path |-> "", whole |-> FALSE, beg |-> 0, end |-> 1, force |-> FALSE, fault |-> ""] : x \in {y \in {1} : n >= 2}} \cup
     {[k |-> q, force |-> f, fault |-> ""] : q \in {"q", "wq", "x", "xa"}, f \in BOOLEAN} \cup
-    {[k |-> "b", how |-> h, n |-> 2, force |-> f] : h \in {"next", "prev", "alias", "del"}, f \in BOOLEAN} \cup
+    {[k |-> "b", how |-> h, n |-> 2, force |-> FALSE] : h \in {"next", "prev", "alias", "del"}} \cup
     {[k |-> "a", n |-> 1], [k |-> "d"], [k |-> "u"], [k |-> "redo"]} \cup
     {[k |-> "se", opt |-> o, val |-> v] : o \in {"aw", "wa"}, v \in BOOLEAN} \cup
     {[k |-> "touch", path |-> p] : p \in Paths}
 
-Init == st = NewState(Paths, NB) /\ steps = 0
+Init == st = NewState(Paths, NB) /\ steps = 0 /\ trail = <<>>
 Next == /\ ~st.quit /\ steps < MaxSteps
-        /\ \E c \in Cmds(st) : st' = Step(st, c)
+        /\ \E c \in Cmds(st) : st' = Step(st, c) /\ trail' = Append(trail, c)
         /\ steps' = steps + 1
-Spec == Init /\ [][Next]_<<st, steps>>
+Spec == Init /\ [][Next]_<<st, steps, trail>>
+View == <<st, steps>>
 
 Inv == DirtySound(st) /\ NoLoss(st) /\ TableOK(st)
 (* switching commands leave every buffer alone; a failed or refused command changes no text *)
 ActionProps == [][ /\ (st'.ret # 0 /\ ~st'.quit) => \A i \in 1..Len(st.tab) : \E j \in 1..Len(st'.tab) :
                                                   st'.tab[j].id = st.tab[i].id /\ st'.tab[j].lb.lines = st.tab[i].lb.lines
-                 ]_<<st, steps>>
+                 ]_<<st, steps, trail>>
 =============================================================================
